@@ -20,6 +20,7 @@ import RoModel.Drivers.Create
 import RoModel.Drivers.More
 import RoModel.Drivers.Fault
 import RoModel.Drivers.Prom
+import RoModel.Drivers.Cut
 namespace Ro.Driver
 
 def handlers : List (String × (Case → String)) := [
@@ -45,7 +46,10 @@ def handlers : List (String × (Case → String)) := [
   ("tap", Drivers.More.runTap),
   ("pipe", Drivers.More.runPipe),
   ("fault", Drivers.Fault.run),
-  ("prom", Drivers.Prom.run)
+  ("prom", Drivers.Prom.run),
+  ("cutin", Drivers.Cut.runCutIn),
+  ("collect", Drivers.Cut.runCollect),
+  ("teardown", Drivers.Cut.runTeardown)
 ]
 
 def runCase (c : Case) : String :=
